@@ -7,6 +7,7 @@ import (
 	"fmt"
 	"go/token"
 	"go/types"
+	"strings"
 
 	"golang.org/x/tools/go/ssa"
 )
@@ -16,7 +17,7 @@ func init() {
 		ID: "C19",
 		Explanation: "Decided: (R1) both subscription tables (and the inner maps reached through them) are read and written only with the stream's mutex held, Publish iterates a private snapshot; " +
 			"(R2) every path that inserts into / deletes from one index performs the matching update of the other index in the same call; (R3) Publish looks up the event's own reflect.Type, and tells every element of the snapshot exactly once, as a user message carrying the published value; " +
-			"(R5) the termination path unsubscribes the actor from everything, the restart path does not. " +
+			"(R5) the termination path unsubscribes the actor from everything, the restart path does not; (R6) in the cleanup step UnsubscribeAll dominates the release of the actor's path and every termination notice, so nobody who has observed the termination can still publish to the dead actor, and a successor under the same name cannot lose its subscriptions to the old incarnation's late UnsubscribeAll. " +
 			"(Idempotence of a repeated Subscribe follows from map assignment semantics given R2 and needs no rule: a rule demanding the existence check would fire on a behaviour-preserving edit.) NOT decided: delivery order across publishers, 'not delivered after Unsubscribe returned' when a publish races the unsubscribe.",
 		Assumptions: []string{"sync.RWMutex semantics", "maps.Clone returns a fresh map"},
 		Rules: []Rule{
@@ -24,6 +25,7 @@ func init() {
 			{ID: "C19.R2", Min: 8, Desc: "indexes updated together; whole entries deleted only when empty", Fn: c19Indexes},
 			{ID: "C19.R3", Min: 3, Desc: "fan-out: own type key, each snapshot element told exactly once with the event", Fn: c19Fanout},
 			{ID: "C19.R5", Min: 2, Desc: "unsubscribe-all on termination, not on restart", Fn: c19Lifecycle},
+			{ID: "C19.R6", Min: 1, Desc: "subscriptions dropped before the termination becomes observable", Fn: c19BeforeReported},
 		},
 	})
 }
@@ -464,4 +466,54 @@ func c19Lifecycle(p *Program, r *Report) {
 	term, restart := lc.effectOnPaths("UnsubscribeAll")
 	r.Check(term, "termination unsubscribes all", lc.Cleanup.Pos(), "on the terminating (non-restart) path of the kill chain EventStream.UnsubscribeAll(self) is called on every path")
 	r.Check(!restart, "restart keeps subscriptions", lc.Cleanup.Pos(), "UnsubscribeAll is unreachable when the actor is restarting")
+}
+
+// c19BeforeReported: "an event published after the subscriber has terminated is not delivered to it". Termination becomes
+// observable through the registry removal (the name is free again), the OnKilled notices and the ActorKilledEvent; the
+// subscriptions must be gone before any of them.
+func c19BeforeReported(p *Program, r *Report) {
+	lc := lcOrFail(p, r)
+	if lc == nil {
+		return
+	}
+	g := p.ig(lc.Cleanup)
+	unsub, _ := p.eventNodes(g, func(in ssa.Instruction) bool {
+		c := callOf(in)
+		return c != nil && c.IsInvoke() && c.Method.Name() == "UnsubscribeAll"
+	})
+	observable := nodesWhere(g, func(in ssa.Instruction) bool {
+		c := callOf(in)
+		if c == nil {
+			return false
+		}
+		if c.StaticCallee() == lc.RemoveRegistry {
+			return true
+		}
+		if c.IsInvoke() && c.Method.Name() == "Publish" && len(c.Args) >= 2 && strings.HasSuffix(typeName(strip(c.Args[1]).Type()), "ActorKilledEvent") {
+			return true
+		}
+		return false
+	})
+	for _, ts := range p.tellSites(lc.Cleanup) {
+		observable[g.Idx[ts.In]] = true
+	}
+	if len(unsub) == 0 || len(observable) == 0 {
+		r.Unresolved("UnsubscribeAll / registry removal / termination notices in the cleanup step")
+		return
+	}
+	ok := true
+	var first ssa.Instruction
+	for n := range observable {
+		if !g.DominatedByNodes(n, unsub) {
+			ok = false
+			if first == nil || g.Nodes[n].Pos() < first.Pos() {
+				first = g.Nodes[n]
+			}
+		}
+	}
+	pos := firstPos(g, unsub)
+	if first != nil {
+		pos = first.Pos()
+	}
+	r.Check(ok, "subscriptions dropped before the termination is observable", pos, fmt.Sprintf("each of the %d observable termination effects (path release, OnKilled notices, ActorKilledEvent) is dominated by UnsubscribeAll", len(observable)))
 }
